@@ -23,6 +23,9 @@ def streams(rng, tier):
     ss.append(G + W.ready(b"PULL") + W.msg([b"k" * 9000, b"s"]) + W.msg([b"", b"j" * 8192]))
     ss.append(G + W.ready(b"XPUB") + W.msg([b"\x01topic"]) + W.msg([b"\x00topic"]))
     ss.append(G + W.ready(b"DEALER") + W.frame(b"short-as-long", force_long=True) + W.msg([b"after"]))
+    ss.append(G + W.ready(b"DEALER") + W.msg([b"x", b""]))            # the stream ends with an empty last frame
+    ss.append(G + W.ready(b"DEALER") + W.msg([b""]))
+    ss.append(G + W.ready(b"REP") + W.msg([b"", b"q"]) + W.msg([b"k" * 300, b""]))
     n = 6 if tier == "quick" else 40
     for _ in range(n):
         s = G + W.ready(rng.choice([b"DEALER", b"ROUTER", b"REP"]), rng.choice([None, b"i", b"id" * 20]))
@@ -122,7 +125,7 @@ def oracle_cases(case_lines, impl):
         if sp[1] != "dec":
             continue
         s = b"".join(W.untok(c) for c in sp[2].split("|")) if sp[2] != "." else b""
-        if s not in seen and "eof" not in sp[3:]:
+        if s not in seen:
             seen.add(s)
             oc.append("o%d specitems %s" % (len(seen), W.tok(s) if s else "-"))
             _whole[s] = "o%d" % len(seen)
@@ -158,12 +161,13 @@ def judge(line, impl_obs, orc, _cache={}):
         _cache[key] = (got, line)
     elif _cache[key][0] != got:
         return "same bytes, different segmentation, different items: %r vs %r (other case: %s)" % (got[:200], _cache[key][0][:200], _cache[key][1][:200])
-    if not eof:
-        want = orc.get(_whole.get(s, ""), None)
-        if want is not None:
-            g2 = " ".join(t for t in got.split() if t not in ("pend",))
-            if g2 != want:
-                return "items differ from the declarative reading of the stream: %r vs %r" % (g2[:200], want[:200])
+    want = orc.get(_whole.get(s, ""), None)
+    if want is not None:
+        # with end-of-stream the same items must have been delivered before the terminal token
+        g2 = " ".join(t for t in got.split() if t not in ("pend", "end", "E:Io.UnexpectedEof"))
+        w2 = want
+        if g2 != w2:
+            return "items differ from the declarative reading of the stream: %r vs %r" % (g2[:200], want[:200])
     return None
 
 
